@@ -209,11 +209,13 @@ func main() {
 		},
 		Explanation: "Each execution = one (model font, serialisation) pair: t1gen writes the file, type1.Read reads it, every field is compared with the model.",
 		Families: func(tier string) []mc.Family {
-			var outline, multi, dict []t1model.Item
+			var outline, comp, multi, dict []t1model.Item
 			for _, it := range all {
 				switch it.Group {
 				case t1model.GroupOutline:
 					outline = append(outline, it)
+				case t1model.GroupComposite:
+					comp = append(comp, it)
 				case t1model.GroupMulti:
 					multi = append(multi, it)
 				default:
@@ -227,7 +229,7 @@ func main() {
 				return func(i int) string { return items[i].Font.Describe() }
 			}
 			budget := 50 * time.Second
-			multiScope, multiScopeText := flexOnly, "global and per-glyph decisions plus flex at every legal position (the per-command form and number decisions of every outline are explored in single-glyph-and-composite-fonts; thorough explores them here as well)"
+			multiScope, multiScopeText := flexOnly, "global and per-glyph decisions plus flex at every legal position (the per-command form and number decisions of every outline are explored in single-glyph-fonts; thorough explores them here as well)"
 			if tier == "thorough" {
 				budget = 3 * time.Minute
 				multiScope, multiScopeText = full, "all decisions"
@@ -236,12 +238,19 @@ func main() {
 				"per glyph: subr factoring {none,contour,tail,nested,operator-only}, hint replacement, dotsection, sbw form, vstem-first; per path command with a choice: h/v vs r form; per operand-carrying command: number form {shortest,5-byte,div}; flex at every legal position"
 			fams := []mc.Family{
 				{
-					Name: "single-glyph-and-composite-fonts", Items: len(outline), MaxDev: 2, Budget: budget,
+					Name: "single-glyph-fonts", Items: len(outline), MaxDev: 2, Budget: budget,
 					Body:     body(outline, full),
 					Describe: describe(outline),
-					CrashKey: func(int) string { return "C06:crash:single-glyph-and-composite-fonts" },
-					Rule: fmt.Sprintf("item = one of %d model fonts: .notdef + one glyph for each of 16 outlines x 6 hint configurations (metrics kind cycling over 4) and 16 outlines x 2 further metrics kinds, and 16 fonts with 1-2 seac composites; "+
+					CrashKey: func(int) string { return "C06:crash:single-glyph-fonts" },
+					Rule: fmt.Sprintf("item = one of %d model fonts: .notdef + one glyph for each of 16 outlines x 6 hint configurations (metrics kind cycling over 4) and 16 outlines x 2 further metrics kinds; "+
 						decisions+"; all executions with <= 2 deviations; non-trivial = Read succeeded, all fields equal the model and the font has at least one outline", len(outline)),
+				},
+				{
+					Name: "composite-fonts", Items: len(comp), MaxDev: 2, Budget: budget,
+					Body:     body(comp, multiScope),
+					Describe: describe(comp),
+					CrashKey: func(int) string { return "C06:crash:composite-fonts" },
+					Rule:     fmt.Sprintf("item = one of %d model fonts with 1-2 seac composites (4 base outlines x hints none/both x StandardEncoding or a custom encoding keeping the components at their standard codes; every third font has a second accent and a fractional displacement); "+multiScopeText+"; <= 2 deviations; non-trivial as above (on the unrepaired tree every execution of this family ends in one of the known seac findings)", len(comp)),
 				},
 				{
 					Name: "multi-glyph-fonts", Items: len(multi), MaxDev: 2, Budget: budget,
@@ -260,11 +269,12 @@ func main() {
 				},
 			}
 			if tier == "thorough" {
-				fams[2].MaxDev = 3
+				fams[3].MaxDev = 3
 				// triple deviations for the smallest outline fonts
 				type sized struct{ idx, alts int }
 				var ss []sized
-				for i, it := range outline {
+				pool := append(append([]t1model.Item{}, outline...), comp...)
+				for i, it := range pool {
 					ss = append(ss, sized{i, alternatives(it.Font, full)})
 				}
 				sort.SliceStable(ss, func(a, b int) bool { return ss[a].alts < ss[b].alts })
@@ -272,11 +282,11 @@ func main() {
 				total := 0
 				for _, s := range ss {
 					cost := s.alts * s.alts * s.alts / 6
-					if total+cost > 4_000_000 {
+					if total+cost > 1_200_000 {
 						break
 					}
 					total += cost
-					small = append(small, outline[s.idx])
+					small = append(small, pool[s.idx])
 				}
 				smallBody := body(small, full)
 				fams = append(fams, mc.Family{
@@ -284,7 +294,7 @@ func main() {
 					Body:     smallBody,
 					Describe: describe(small),
 					CrashKey: func(int) string { return "C06:crash:smallest-fonts-triple" },
-					Rule:     fmt.Sprintf("the %d outline fonts with the fewest alternatives, all decisions, <= 3 deviations", len(small)),
+					Rule:     fmt.Sprintf("the %d single-glyph/composite fonts with the fewest alternatives, all decisions, <= 3 deviations", len(small)),
 				})
 			}
 			return fams
